@@ -1,6 +1,18 @@
 HOOK_COMMITS = ["02bc05e"]
 NOT_APPLICABLE = {}
 TEXT = {
+ "C08": {
+  "text": "Kernel-checked: the write plan of a commit / rollback is ONE leveldb batch whose effect is exactly the manager "
+          "model's state transition (add_plan_effect, pop_plan_effect), hence after any number of completed writes the disk "
+          "is the state before or after (crash_atomic_*), and re-delivery from either state reaches the crash-free state; "
+          "negative witness for the per-key plan (finding F6, fixed). Tied to the code without call-site hooks: the journal "
+          "of the live database gives the real write sequence, which is compared with the model's plan, and every cut point "
+          "is materialised as a crash image and checked.",
+  "design_ref": "§3 C08",
+  "note": "leveldb's batch atomicity and journal recovery are trusted; fsync/power-loss durability is out of scope "
+          "(the property speaks of process death).",
+  "technique": "Lean 4 proof about the write plan + journal-derived crash images (fault enumeration at every write boundary)",
+ },
  "C01": {
   "text": "Abstract ledger model (balances, confirmed sends, receive markers, token contract issue/mint/burn/update) with "
           "kernel-checked guards (no send above balance, zero-token sends empty) and the negative witness for the "
